@@ -343,6 +343,10 @@ class XmlDateTime(NamedTuple):
         """Return self >= other."""
         return _cmp(self, other, operator.ge)
 
+    def __hash__(self) -> int:
+        """Return hash(self), equal instants have equal hashes."""
+        return hash(_timeline(self))
+
 
 class XmlTime(NamedTuple):
     """Concrete xs:time builtin type.
@@ -492,6 +496,10 @@ class XmlTime(NamedTuple):
     def __ge__(self, other: Any) -> bool:
         """Return self >= other."""
         return _cmp(self, other, operator.ge)
+
+    def __hash__(self) -> int:
+        """Return hash(self), equal instants have equal hashes."""
+        return hash(_timeline(self))
 
 
 DurationType = XmlTime | XmlDateTime
